@@ -85,15 +85,18 @@ T = {
             "ties at the smallest tracked value may go either way", "4/C17"),
     "C18": ("exploration", "runtime monitor: exhaustive short keys against independent FNV-1a (Python and C), purity and prefix monitors",
             "All byte strings of length <= 2 and ASCII strings of length <= 2 (exhaustive), random longer keys, depths 1..8, 16 seeds; shipped and decorator-built "
-            "strategies checked for purity, length, range, prefix stability and text/bytes agreement.",
+            "strategies checked for purity, length, range, prefix stability and text/bytes agreement; a committed corpus of keys whose running FNV-1a state "
+            "reaches the extremes of the 64-bit range (searched once against the reference), text in several normalisation forms, nested / sibling / very deep strategies.",
             "reference FNV-1a written from the published definition; published test vectors included", "4/C18"),
     "C19": ("exploration", "runtime monitor: observable-state snapshot before/after read-only calls; clear() vs fresh object incl. divergence under further history",
             "Every structure in random reachable states gets a batch of read-only calls; exported bytes, counters, tables (and the raw backing file) must be "
-            "identical before and after; after clear() the object is compared with a fresh one and both are fed the same further history.",
+            "identical before and after (cheap accessors are read before anything is exported); refused exports and refused merges count as reads; sketches and in-memory "
+            "Bloom filters are also compared with an unread TWIN of the same history after both received the same further updates; after clear() the object is compared "
+            "with a fresh one and both are fed the same further history.",
             "observable state = what the public API exposes", "4/C19"),
     "C20": ("exploration", "runtime monitor: list model, exhaustive for sizes 1..20, random beyond",
             "Every operation at every index (incl. negative and out of range) from a set of base states for every size 1..20 is compared bit by bit with a Python list; "
-            "random sequences up to size 70.",
+            "random sequences up to size 70 and on block-sized arrays; point-read-only histories, arrays of 0.5 .. 2 M bits, dense arrays cleared, tens of thousands of clears.",
             "values are ints/bools; any of IndexError/ValueError/TypeError is a rejection", "4/C20"),
 }
 
